@@ -13,13 +13,18 @@ def sh(cmd, cwd=None, env=None, timeout=3600):
     p = subprocess.run(cmd, shell=True, cwd=cwd, env=e, capture_output=True, text=True, timeout=timeout)
     return p.returncode, p.stdout + p.stderr
 
+ROUND = int(os.environ.get("SEED_ROUND", "1"))   # round r works in /tmp/mut<r>_<ID> (round 1: /tmp/mut_<ID>); names continue: k + 3*(r-1)
+def wt_of(pid, k=None):
+    r = ROUND if k is None else (int(k) - 1) // 3 + 1
+    return f"/tmp/mut_{pid}" if r == 1 else f"/tmp/mut{r}_{pid}"
+
 def collect(pid):
-    src = f"/tmp/mut_{pid}"
+    src = wt_of(pid)
     n = 0
     for d in sorted(os.listdir(src)):
         m = re.fullmatch(r"MUTATION(\d+)", d)
         if not m: continue
-        dst = f"{V}/seeded/{pid}-{m.group(1)}"
+        dst = f"{V}/seeded/{pid}-{int(m.group(1)) + 3 * (ROUND - 1)}"
         if os.path.exists(dst): shutil.rmtree(dst)
         shutil.copytree(os.path.join(src, d), dst, ignore=shutil.ignore_patterns("target", "target-*", "*.lock.bak"))
         n += 1
@@ -27,7 +32,7 @@ def collect(pid):
 
 def verify(name):
     pid, k = name.split("-")
-    wt = f"/tmp/mut_{pid}"; mdir = f"{wt}/MUTATION{k}"
+    wt = wt_of(pid, k); mdir = f"{wt}/MUTATION{(int(k) - 1) % 3 + 1}"
     meta = json.load(open(f"{V}/seeded/{name}/meta.json"))
     res = {}
     rc, out = sh("git status --porcelain --untracked-files=no", cwd=wt)
@@ -62,6 +67,8 @@ def run(name, ids):
     pid = name.split("-")[0]
     ids = ids or [pid]
     meta = json.load(open(f"{V}/seeded/{name}/meta.json"))
+    import fcntl
+    lk = open("/tmp/engine.lock", "w"); fcntl.flock(lk, fcntl.LOCK_EX)   # /repo and the engine binary are mine until I exit
     rc, out = sh("git status --porcelain --untracked-files=no", cwd="/repo")
     if out.strip():
         print("refusing: /repo has uncommitted changes"); sys.exit(2)
